@@ -637,8 +637,8 @@ func (p *Parser) parseTernaryExpression(condition ast.Expression) ast.Expression
 		Token:     p.curToken,
 		Condition: condition,
 	}
-	p.nextToken() //skip the '?'
 	precedence := p.curPrecedence()
+	p.nextToken() //skip the '?'
 	expression.IfTrue = p.parseExpression(precedence)
 
 	// error?
